@@ -648,7 +648,11 @@ def check(run, db, tier):
     run.rule('C15.fold', 'the transfer-function list is folded multiplicatively over every element exactly once')
     run.rule('C15.dc', 'MTF/PTF/OTF share one transform and are normalised by their own sample at n//2')
     run.rule('C15.cache', 'no memo keyed by less than its fill reads; arguments are not modified in place (results do not depend on call history)')
+    # the PSF -> OTF transforms on values first (flat and single-sample PSFs on 3x4, 4x6, 6x3, 2x2 grids, exact DFTs)
+    from .c15values import otf_value_rules
+    run.group(otf_value_rules, run, db, 'C15.dc')
     for fn in (conv_rules, atf_rules, inventory_rules, grid_shape_rules, grid_role_rules, otf_rules, cache_rules):
         run.group(fn, run, db)
+    run.forgive('otf_value_rules', ['otf_rules', 'inventory_rules'])
     run.require_instances('C15.origin', 12)
     run.require_instances('C15.dc', 20)
